@@ -47,12 +47,17 @@ def check_validation(report):
     from ..pynorm import normalizer, subst
     N = normalizer(m)
 
+    from ..pymodel import nfunc
+
     def collect(cfi, mapping, prefix, depth):
-        env = dict(local_env(cfi.node))
+        # the normal form of the function: tables of (condition, message) applied with extend(...) are unrolled into ifs, single-expression
+        # helpers inlined, locals substituted
+        node = nfunc(m, cfi, keep={"PrimitiveType", "build", "get"})
+        env = dict(local_env(node))
         env = {k: subst(v, mapping) for k, v in env.items()}     # helper locals are expressed in the caller's terms
         env.update(mapping)
         recs = []
-        for guards, st in stmt_guards(cfi.node, env):
+        for guards, st in stmt_guards(node, env):
             g = prefix + guards
             if records_error([st]):
                 recs.append((g, st, cfi))
@@ -68,7 +73,10 @@ def check_validation(report):
                                 formal = formal[1:]
                             mp = {name: subst(arg, env) for name, arg in zip(formal, c.args)}
                             mp.update({k.arg: subst(k.value, env) for k in c.keywords if k.arg})
-                            recs += collect(t[0], mp, g, depth + 1)
+                            # (a guard that merely tests the helper's own result is not a gate on what the helper records)
+                            csrc = ast.unparse(subst(c, env))
+                            g2 = [f for f in g if f[0] == "for" or f[0] not in (csrc, ast.unparse(c))]
+                            recs += collect(t[0], mp, g2, depth + 1)
         return recs
     records = collect(fi, {}, [], 0)
     r.need(len(records) >= 5, "error-recording statements in enforce_valid_method_settings (and helpers)", str(len(records)))
